@@ -50,7 +50,13 @@ def extract_block(repo, rel, sel, frm, to, skip=0):
     txt = open(p).read()
     masked = rs.mask(txt)
     kind, _, name = sel.partition(" ")
-    found = [it for it in rs.list_items(masked, 0, len(masked)) if it.kind == kind and it.name == name]
+    top = rs.list_items(masked, 0, len(masked))
+    found = [it for it in top if it.kind == kind and it.name == name]
+    if not found:
+        # a method: look inside the impl blocks of the file
+        for im in top:
+            if im.kind == "impl" and im.body_open is not None:
+                found += [it for it in rs.list_items(masked, im.body_open + 1, im.body_close) if it.kind == kind and it.name == name]
     if len(found) != 1:
         raise RuntimeError("lost anchor: `%s` in %s" % (sel, rel))
     host = found[0]
